@@ -42,6 +42,38 @@ def plan(tier, seed):
 BAD_KEYS = ["a b", "ä", "a@b", "g/a b", "g/ä/x", "tab\tkey", "@"]
 
 
+def check_lazy_big(cls_name, in_patch, rec):
+    """A dataset far larger than memory (created by shape, allocated lazily by HDF5): listing the record, reading its
+    siblings and slices of it works as on a plain HDF5 file."""
+    import numpy as np
+
+    t = _mk(cls_name)()
+    case = dict(kind="lazybig", cls=cls_name, in_patch=in_patch)
+    try:
+        r = t.rec
+        r["small"] = 1
+        if in_patch:
+            t.commit()
+        try:
+            r.create_dataset("g/big", shape=(2 ** 40,), dtype="f8")
+            got = dict(keys=sorted(r.keys()), gkeys=sorted(r["g"].keys()), small=int(r["small"][()]), has=("g/big" in r),
+                       part=np.asarray(r["g/big"][5:8]).tolist(), last=float(r["g/big"][2 ** 40 - 1]))
+            r["other"] = 2
+            t.reopen("r+", True)
+            r = t.rec
+            got["keys_after_reopen"] = sorted(r.keys())
+        except MemoryError as e:
+            rec.fail("C01:record-unusable-next-to-large-dataset", case, f"MemoryError: {str(e)[:120]}", "works as on a plain HDF5 file")
+            return
+        exp = dict(keys=["g", "small"], gkeys=["big"], small=1, has=True, part=[0.0, 0.0, 0.0], last=0.0,
+                   keys_after_reopen=["g", "other", "small"])
+        if got != exp:
+            rec.fail("C01:view-differs:large-dataset", case, got, exp)
+        rec.case(nt_key=[cls_name, in_patch, "lazybig"], classes=["lazy_large_dataset"], sample=case)
+    finally:
+        t.destroy()
+
+
 def check_marker_forms(cls_name, in_patch, rec):
     """The reserved deletion-marker value, however it reaches the container, is either refused loudly or stored as a
     visible value - never accepted and then treated as 'deleted'."""
@@ -168,6 +200,7 @@ def run_shard(shard, tier, seed, rec):
             for ip in (False, True):
                 check_invalid_keys(cn, ip, rec)
                 check_marker_forms(cn, ip, rec)
+                check_lazy_big(cn, ip, rec)
         return
     i = shard["i"]
     n = {"quick": 70, "thorough": 2500}[tier]
@@ -183,6 +216,8 @@ def replay(rp, rec):
     try:
         if rp["case"].get("kind") == "keys":
             check_invalid_keys(rp["case"]["cls"], rp["case"]["in_patch"], rec)
+        elif rp["case"].get("kind") == "lazybig":
+            check_lazy_big(rp["case"]["cls"], rp["case"]["in_patch"], rec)
         elif rp["case"].get("kind") == "marker":
             check_marker_forms(rp["case"]["cls"], rp["case"]["in_patch"], rec)
         else:
